@@ -59,6 +59,14 @@ func c06Coverage() (map[string]string, error) {
 			if m := re.FindStringSubmatch(ln); m != nil {
 				out[m[1]+"."+m[2]] = m[3]
 			}
+			if strings.HasPrefix(ln, "def mh_") {
+				if f := strings.Fields(ln); len(f) >= 2 {
+					parts := strings.SplitN(strings.TrimPrefix(f[1], "mh_"), "_", 2)
+					if len(parts) == 2 {
+						out["mh:"+parts[0]+"."+parts[1]] = "yes"
+					}
+				}
+			}
 			if strings.HasPrefix(ln, "def exactFloat") {
 				inExact = true
 				continue
@@ -228,6 +236,91 @@ func (c *c06env) goRunCase(ci *c06inst, st *c06state, exec uint64) {
 	r.Case(line, fmt.Sprintf("d=%s vcc=%x sd=%x", d, res.vcc, binary.LittleEndian.Uint64(res.s[c06MaskO*4:])))
 }
 
+// mbodyCase: one iteration of a translated DS / FLAT body (`mraw_<arch>_<handler>`) against the real ALU
+func (c *c06env) mbodyCase(ci *c06inst, st *c06state, lane int) {
+	r := c.r
+	inst := ci.inst
+	s2 := *st
+	s2.exec = uint64(1) << uint(lane)
+	c.load(&s2)
+	a, f := c06OperandVal(c, inst.Addr, lane)
+	if f != "" || inst.Addr == nil {
+		r.Count("mbody-skip:address-unreadable")
+		return
+	}
+	row := func(v []byte, reg int) []byte { return v[lane*1024+reg*4 : lane*1024+reg*4+16] }
+	hs, sb := 0, uint64(0)
+	if ci.format == "flat" && inst.SAddr != nil && inst.SAddr.IntValue != 0x7F && (ci.arch == "cdna3" || inst.SAddr.IntValue != 0) {
+		hs = 1
+		reg := int(inst.SAddr.IntValue)
+		sb, _ = c06OperandVal(c, insts.NewSRegOperand(reg, reg, 2), 0)
+	}
+	var wb uint64
+	var win []byte
+	if ci.format == "ds" {
+		wb = uint64(uint32(a))
+		if inst.Offset0 > 0xff { // single-address DS ops use the 16-bit offset: the access is far from the base
+			wb = uint64(uint32(a) + inst.Offset0)
+		}
+		if wb+160 > uint64(len(s2.lds)) {
+			r.Count("mbody-skip:lds-window-out-of-range")
+			return
+		}
+		win = append([]byte{}, s2.lds[wb:wb+160]...)
+	} else {
+		eff := a
+		if hs == 1 {
+			eff = sb + (a & 0xffffffff)
+		}
+		eff += uint64(int64(int32(inst.Offset0)))
+		wb = eff
+		for k := uint64(0); k < 32; k++ {
+			win = append(win, s2.mem[wb+k])
+		}
+	}
+	line := fmt.Sprintf("c06 mbody %s %s i=%d a=%x da=%x d1=%x d0=%x off0=%x off1=%x hs=%d sb=%x ldslen=%x wb=%x win=%x",
+		ci.arch, ci.handler, lane, a, row(s2.v, c06Data), row(s2.v, c06Data1), row(s2.v, c06Dst), inst.Offset0, inst.Offset1, hs, sb, len(c.e.lds), wb, win)
+	res := c.runOn(ci, &s2, 1)
+	r.Count("mbody:" + ci.arch + "/" + ci.format)
+	if res.fault != "" {
+		r.Count("mbody-fault:" + ci.arch + "." + ci.handler)
+		r.Case(line, "fault")
+		return
+	}
+	loads, eff := "-", ""
+	if ci.format == "ds" {
+		eff = fmt.Sprintf("%x/0", res.lds[wb:wb+160])
+	} else {
+		var ls []string
+		for _, rd := range res.reads {
+			ls = append(ls, fmt.Sprintf("%x:%d", rd[0], rd[1]))
+		}
+		loads = strings.Join(ls, ",")
+		var as []uint64
+		for ad := range res.mem {
+			as = append(as, ad)
+		}
+		sort.Slice(as, func(i, j int) bool { return as[i] < as[j] })
+		var ws []string
+		for _, ad := range as {
+			ws = append(ws, fmt.Sprintf("%x:%02x", ad, res.mem[ad]))
+		}
+		eff = strings.Join(ws, ",")
+	}
+	r.Case(line, fmt.Sprintf("d=%x loads=%s mem=%s", row(res.v, c06Dst), loads, eff))
+}
+
+// c06MemHandlers: names of the translated DS / FLAT bodies in the regenerated Gen/LaneBodies.lean
+func c06MemHandlers(cov map[string]string) map[string]bool {
+	out := map[string]bool{}
+	for k := range cov {
+		if strings.HasPrefix(k, "mh:") {
+			out[strings.TrimPrefix(k, "mh:")] = true
+		}
+	}
+	return out
+}
+
 func runC06Deep(r *Run, rng *Rng, replay string) {
 	log.SetOutput(io.Discard)
 	cov, err := c06Coverage()
@@ -243,6 +336,7 @@ func runC06Deep(r *Run, rng *Rng, replay string) {
 	c.e.cdna3.SetLDS(c.e.lds)
 	c.ldsNeg = make([]byte, len(c.e.lds))
 	c.ldsBase = make([]byte, len(c.e.lds))
+	c.fillRandom(c.ldsBase)
 	hand, _, err := c06ScanSwitches()
 	if err != nil {
 		r.Note("C06 deep: cannot parse the emulator sources for handler names: %v", err)
@@ -323,6 +417,47 @@ func runC06Deep(r *Run, rng *Rng, replay string) {
 			}
 		}
 	}
+	// DS / FLAT bodies
+	memH := c06MemHandlers(cov)
+	memDone := map[string]bool{}
+	for _, arch := range []string{"gcn3", "cdna3"} {
+		rows := c.e.dGCN3.VerifRows()
+		if arch == "cdna3" {
+			rows = c.e.dCDNA.VerifRows()
+		}
+		sort.SliceStable(rows, func(i, j int) bool { return rows[i].Opcode < rows[j].Opcode })
+		for _, format := range []string{"ds", "flat"} {
+			seen := map[int]bool{}
+			for _, it := range rows {
+				op := int(it.Opcode)
+				if c06FormatOf(it) != format || seen[op] {
+					continue
+				}
+				seen[op] = true
+				handler := hand[fmt.Sprintf("%s/%s/%d", arch, format, op)]
+				if handler == "" || !memH[arch+"."+handler] {
+					continue
+				}
+				for vi, d := range c.variants(arch, format, it) {
+					inst, words, err := c.decode(arch, d)
+					if err != nil {
+						continue
+					}
+					ci := &c06inst{arch: arch, format: format, op: op, iname: it.InstName, inst: inst, words: words, variant: fmt.Sprint(vi), handler: handler,
+						mem: map[string]string{"ds": "lds", "flat": "flat"}[format]}
+					for k := 0; k < nStates; k++ {
+						st := c.newState(ci, false)
+						for j := 0; j < nLanes; j++ {
+							c.mbodyCase(ci, st, rng.Intn(64))
+						}
+					}
+					memDone[arch+"."+handler] = true
+				}
+			}
+		}
+	}
+	r.CountN("mbody-handlers-translated", len(memH))
+	r.CountN("mbody-handlers-exercised", len(memDone))
 	// a second pass of the scalar EXEC test (other operand variants; its first variant always compares with EXEC = 0)
 	for _, arch := range []string{"gcn3", "cdna3"} {
 		rows := c.e.dGCN3.VerifRows()
